@@ -5,6 +5,9 @@
 // limits are enforced, MAX_STREAMS bounded), C25 (ACKs of unsent / skipped packet
 // numbers are refused, no packet is processed twice) and C32 (final sizes) - the
 // parts a well-behaved real peer (engine quicnet) can never exercise.
+// The send-side half of C20 against the same scripted peer (the conn's own STREAM
+// frames judged against limits the fake peer dictates) is in
+// verif_quicpeer_send_test.go (identifiers starting with qs).
 //
 // Every choice is drawn from rapid BEFORE the bubble is entered (a plan of
 // relative operations plus raw auxiliary integers); inside the bubble the plan is
